@@ -14,7 +14,8 @@ from __future__ import annotations
 import types
 from typing import Protocol
 
-from engine.api import cond, pick
+from engine.api import HarnessModelError, cond, pick
+from engine.reglob import reglobalize
 
 from vgi_rpc.http import _client as cl
 from vgi_rpc.http.server import _sticky as st
@@ -218,6 +219,66 @@ def _play(resume: bool, accept_kind: int, free: str, draining: bool, a1: int, a2
     return ""
 
 
+_VIEW_SLOT: list = [None]
+_RAW_EXIT = getattr(cl._open_session_view, "__wrapped__", None)
+# re-bound once at import (outside the tracer): the real generator body with _SessionView(...) := the scenario's view
+_LEAVE = reglobalize(_RAW_EXIT, _SessionView=lambda outer, initial_token: _VIEW_SLOT[0]) if _RAW_EXIT is not None else None
+
+
+def _leave_block(view) -> list:  # type: ignore[no-untyped-def]
+    """Run the REAL exit logic of with_session_token() (the body of _open_session_view after its
+    yield) on this view; returns the tokens it asked the server to release."""
+    released: list = []
+
+    class _Outer2:
+        def _delete_session_best_effort(self, token) -> None:  # type: ignore[no-untyped-def]
+            released.append(token)
+
+        def __getattr__(self, name: str):  # type: ignore[no-untyped-def]
+            raise HarnessModelError(f"block exit uses proxy.{name}: not modelled")
+
+    if _LEAVE is None:
+        raise HarnessModelError("_open_session_view is no longer a contextmanager-wrapped generator function")
+    _VIEW_SLOT[0] = view
+    gen = _LEAVE(_Outer2(), None)
+    next(gen)
+    try:
+        next(gen)
+    except StopIteration:
+        pass
+    return released
+
+
+def _play_block(resume: bool, first: list[int], second: list[int]) -> str:
+    """Two requests inside one with_session_token() block, then the block is left: whatever session
+    the server still keeps live for this client must have been handed to the release call."""
+    registry, mw = _mk()
+    states: list = []
+    held = None
+    if resume:
+        s0 = _State(-1)
+        sid, exp = registry.open(s0, None, "\x00anonymous")
+        held = _seal(server_id="srv", session_id=sid, expires_at=int(exp), token_key=b"", aad=b"")
+        states.append(s0)
+    view, tc = _client_view(held)
+    for script in (first, second):
+        resp, outcomes = _serve(mw, tc._merge_headers(None), script, states)
+        if "lost" in outcomes:
+            return "request with the client's own token was refused as session-lost"
+        tc._capture(resp)
+        live_tokens = sorted("tok-" + sid.hex() for sid in registry)
+        if len(live_tokens) > 1:
+            return "more than one live session for one client"
+        want = live_tokens[0] if live_tokens else None
+        if view._token != want:
+            return "client holds %r but the server keeps %r live" % (view._token, want)
+    released = _leave_block(view)
+    for sid in registry:
+        if "tok-" + sid.hex() not in released:
+            return "a live session was left behind when the client left the block (no release)"
+    return ""
+
+
 def _judge(opted_in: bool, draining: bool, resume: bool, script: list[int], outcomes: list[str], exact: bool = True) -> str:
     """The property's server-side rules on one request, stated over what the method saw
     (shared by the kernel and the real-HTTP replay; nothing here reads the implementation).
@@ -309,6 +370,38 @@ def _call(proxy, a1: int, a2: int, a3: int) -> list[str]:  # type: ignore[no-unt
     return [x for x in r.split(",") if x]
 
 
+def _replay_block(resume: bool, first: list[int], second: list[int]) -> str | None:
+    """Two real calls inside a real with_session_token() block on the un-stubbed HTTP stack, then the
+    block is left: the server must keep no session of this client."""
+    import warnings
+
+    from vgi_rpc import RpcServer
+    from vgi_rpc.http import drain_handle, http_connect
+    from vgi_rpc.http._testing import make_sync_client
+
+    with warnings.catch_warnings():
+        warnings.simplefilter("ignore")
+        client = make_sync_client(RpcServer(_RSvc, _RImpl()), enable_sticky=True, token_key=b"k" * 32)
+    try:
+        registry = drain_handle(client._client.app).shutdown.__self__  # type: ignore[union-attr]
+        with http_connect(_RSvc, client=client) as proxy:
+            with proxy.with_session_token() as sess:  # type: ignore[attr-defined]
+                if resume and _call(sess, 1, 0, 0) != ["opened"]:
+                    return None
+                for script in (first, second):
+                    if _call(sess, *script) == ["lost"]:
+                        return "real HTTP stack: request with the client's own token was refused as session-lost"
+                    live, tok = len(list(registry)), sess.current_session_token()
+                    if live > 1 or (tok is None) != (live == 0):
+                        return "real HTTP stack: after script %r the client view holds %s while the server keeps %d session(s) live" % (script, "a token" if tok else "no token", live)
+            left = len(list(registry))
+            if left:
+                return "real HTTP stack: %d live session(s) left behind after the client left its with_session_token() block (scripts %r then %r)" % (left, first, second)
+        return None
+    finally:
+        client.close()
+
+
 def _replay(a: dict) -> str | None:
     """The counterexample's scenario on the un-stubbed stack: real RpcServer + make_wsgi_app with
     sticky sessions, real token sealing, the real http_connect client (with_session_token for the
@@ -323,7 +416,9 @@ def _replay(a: dict) -> str | None:
 
     client_side = "accept_kind" not in a and "free" not in a
     script = [a.get("a1", 1), a.get("a2", 0), a.get("a3", 0)]
-    resume, draining = bool(a["resume"]), bool(a["draining"])
+    resume, draining = bool(a["resume"]), bool(a.get("draining", False))
+    if "b1" in a:
+        return _replay_block(resume, script, [a["b1"], a["b2"], a["b3"]])
     with warnings.catch_warnings():
         warnings.simplefilter("ignore")
         client = make_sync_client(RpcServer(_RSvc, _RImpl()), enable_sticky=True, token_key=b"k" * 32)
@@ -371,6 +466,8 @@ def _replay(a: dict) -> str | None:
 
 def _sig(a: dict, conc) -> str:  # type: ignore[no-untyped-def]
     r = _replay(a) or ""
+    if "left behind" in r:
+        return "C27:client-view:live-session-left-behind-on-block-exit"
     if "client holds" in r or "client view holds" in r:
         seq = [x for x in (a.get("a1", 0), a.get("a2", 0), a.get("a3", 0)) if x]
         return "C27:client-view:" + "-".join({1: "open", 2: "close"}[x] for x in seq)
@@ -405,3 +502,12 @@ def client_view_tracks_the_live_session(resume: bool, draining: bool, a1: int, a
     post: _
     """
     return _play(resume, 1, "", draining, a1, a2, a3, True) == ""
+
+
+@cond(q=150, t=400, encoded=ENCODED + [cl._open_session_view], stubs=ASSUMPTIONS[:2], bound="two requests with scripts of <=3 actions each inside one with_session_token() block, then the block is left", replay=_replay, signature=_sig)
+def leaving_the_block_releases_the_live_session(resume: bool, a1: int, a2: int, a3: int, b1: int, b2: int, b3: int) -> bool:
+    """
+    pre: 0 <= a1 <= 2 and 0 <= a2 <= 2 and 0 <= a3 <= 2 and 0 <= b1 <= 2 and 0 <= b2 <= 2 and 0 <= b3 <= 2
+    post: _
+    """
+    return _play_block(resume, [a1, a2, a3], [b1, b2, b3]) == ""
